@@ -87,6 +87,10 @@ func Run(c *vh.Ctx) {
 			var mc MiniCase
 			json.Unmarshal(c.ReplayRaw, &mc)
 			runDeclMini(c, m, mc.Tag, &mc)
+		case "shadow":
+			var sc ShadowCase
+			json.Unmarshal(c.ReplayRaw, &sc)
+			runShadow(c, m, sc.Tag, &sc)
 		case "hist":
 			var h HistCase
 			json.Unmarshal(c.ReplayRaw, &h)
@@ -109,6 +113,13 @@ func Run(c *vh.Ctx) {
 	if os.Getenv("C07_ONLY") == "decl" { // debugging aid: the declaration-spelling stream alone
 		runDecl(c, m, "L"+string(rune('a'+c.Rand.Intn(26))), nil)
 		runDeclMini(c, m, "M"+string(rune('a'+c.Rand.Intn(26))), nil)
+		if m != nil {
+			c.Res.ModelLines = m.Lines
+		}
+		return
+	}
+	if os.Getenv("C07_ONLY") == "shadow" { // debugging aid: the shadowing stream alone
+		runShadow(c, m, "W"+string(rune('a'+c.Rand.Intn(26))), nil)
 		if m != nil {
 			c.Res.ModelLines = m.Lines
 		}
@@ -145,6 +156,9 @@ func Run(c *vh.Ctx) {
 	// and implied keywords, promoted constructor parameters, members that come from a trait)
 	runDecl(c, m, "L"+string(rune('a'+c.Rand.Intn(26))), nil)
 	runDeclMini(c, m, "M"+string(rune('a'+c.Rand.Intn(26))), nil) // the same for anonymous classes and enums
+	// the decision depends on three classes (scope, receiver, declaring) and on whether the scope class declares
+	// the name too: chains of 2..4 classes x which classes declare the member x scope x receiver's class x path
+	runShadow(c, m, "W"+string(rune('a'+c.Rand.Intn(26))), nil)
 	c.Res.Exhaustive = true
 	c.Res.ExhaustiveWhat = "per hierarchy shape: every (access path variant x modifier x receiver x object class x site) cell of the visibility matrix; every (boundary x declared type x value kind) cell of the type matrix (10 x 15 x 11); every (base x interface x middle-class subset x own subset) instantiation cell (4 x 3 x 5 x 16) plus the abstract/interface/static special cases; hierarchy shapes and names are seeded"
 	if m != nil {
